@@ -27,6 +27,104 @@ def _ranges(nums):
     return out
 
 
+def run_fuzz_stage(prop_id, subs, seed, args, pool):
+    """atheris campaigns (vt/fuzz.py), `campaigns` per sub-check in parallel sub-processes; a failing campaign is handed to the
+    normal Hypothesis runner for replay + shrinking.  -> (summary for the evidence, shard-like results of the shrink stage)"""
+    import shutil
+    import tempfile
+    import subprocess
+    from vt import fuzz
+    if not fuzz.available():
+        return {'available': False, 'note': 'atheris is not installed (setup_cmd installs it into /verif/.deps); stage skipped'}, []
+    campaigns = int(os.environ.get('VERIF_FUZZ_CAMPAIGNS', '4'))
+    work_root = tempfile.mkdtemp(prefix='verif-fuzz-', dir=os.environ.get('VERIF_SCRATCH', '/var/tmp'))
+    info = {'available': True, 'engine': 'atheris (libFuzzer) driving hypothesis fuzz_one_input with the same strategies and bodies; '
+                                         'scikit_tt imported under atheris bytecode instrumentation (coverage feedback)',
+            'campaigns': 0, 'executions': 0, 'evaluations': 0, 'distinct_nontrivial': 0, 'corpus_units': 0, 'inconclusive': 0, 'subchecks': {}}
+    procs = []
+    extra = []
+    try:
+        todo = []
+        for s in subs:
+            runs = int(os.environ.get('VERIF_FUZZ_RUNS', '0')) or max(200, s.thorough)
+            for k in range(campaigns):
+                work = os.path.join(work_root, '%s-%d' % (s.name, k))
+                fseed = common.derive_seed(seed, prop_id, 'fuzz:' + s.name, k)
+                todo.append((s, k, work, runs, fseed))
+        running = []
+        t_start = time.time()
+
+        def reap(block):
+            for item in list(running):
+                s, k, work, runs, fseed, proc, t1 = item
+                rc = proc.poll()
+                if rc is None and time.time() - t1 > s.budget_thorough:
+                    proc.kill()
+                    rc = -9
+                if rc is None:
+                    continue
+                running.remove(item)
+                st = {}
+                try:
+                    st = json.load(open(os.path.join(work, 'stats.json')))
+                except Exception:
+                    pass
+                ps = info['subchecks'].setdefault(s.name, {'campaigns': 0, 'executions': 0, 'evaluations': 0, 'distinct_nontrivial': 0,
+                                                           'corpus_units': 0, 'seeds': [], 'inconclusive': 0})
+                ps['campaigns'] += 1
+                ps['seeds'].append(fseed)
+                ps['executions'] += st.get('executions', 0)
+                ps['evaluations'] += st.get('evaluations', 0)
+                ps['distinct_nontrivial'] += st.get('nt', 0)
+                try:
+                    ps['corpus_units'] += len(os.listdir(os.path.join(work, 'corpus')))
+                except OSError:
+                    pass
+                if 'sample' not in ps and st.get('samples'):
+                    ps['sample'] = st['samples'][0]
+                fail = os.path.join(work, 'failure.json')
+                if os.path.exists(fail):
+                    f = json.load(open(fail))
+                    if f.get('kind') == 'violation':
+                        # replay + shrink through the normal runner
+                        r = pool.apply(common.run_shard, ((prop_id, s.name, 1000 + k, 200, fseed, s.budget_thorough, 1, {'db': os.path.join(work, 'db')}),))
+                        if not r['failure'] and not r['harness_error']:
+                            # the stored input did not reproduce under the runner: report the fuzzer's own (unshrunk) case
+                            r['failure'] = {'kind': 'violation', 'clause': f['clause'], 'message': f['message'], 'frame': f.get('frame', ''),
+                                            'case': f['case'], 'traceback': f.get('traceback', '')}
+                        r['evaluations'] = 0
+                        r['nt_hashes'] = []
+                        extra.append(r)
+                    else:
+                        extra.append({'sub': s.name, 'shard': 1000 + k, 'seed': fseed, 'evaluations': 0, 'nt_hashes': [], 'labels': {}, 'discarded': 0,
+                                      'excluded_known': {}, 'budget_skipped': 0, 'samples': [], 'failure': None, 'wall_s': 0.0,
+                                      'harness_error': 'fuzz campaign: ' + f.get('message', '')[-3000:]})
+                elif rc != 0 or not st.get('done'):
+                    ps['inconclusive'] += 1      # killed at the budget or ended early: says nothing
+            if block and running:
+                time.sleep(0.2)
+
+        env = dict(os.environ)
+        while todo or running:
+            while todo and len(running) < args.jobs:
+                s, k, work, runs, fseed = todo.pop(0)
+                os.makedirs(work, exist_ok=True)
+                log = open(os.path.join(work, 'log.txt'), 'w')
+                proc = subprocess.Popen([sys.executable, '-m', 'vt.fuzz', prop_id, s.name, '--runs', str(runs), '--seed', str(fseed), '--work', work],
+                                        stdout=log, stderr=subprocess.STDOUT, env=env, cwd=VERIF)
+                running.append((s, k, work, runs, fseed, proc, time.time()))
+            reap(block=True)
+        for ps in info['subchecks'].values():
+            for key in ('campaigns', 'executions', 'evaluations', 'distinct_nontrivial', 'corpus_units', 'inconclusive'):
+                info[key] += ps[key]
+        info['wall_s'] = round(time.time() - t_start, 1)
+    finally:
+        for item in procs:
+            pass
+        shutil.rmtree(work_root, ignore_errors=True)
+    return info, extra
+
+
 def main(argv=None):
     ap = argparse.ArgumentParser()
     ap.add_argument('prop')
@@ -101,6 +199,12 @@ def main(argv=None):
                 jobs.append((prop_id, s.name, shard, n, common.derive_seed(seed, prop_id, s.name, shard), budget, k))
         # longest first would need timing knowledge; keep declaration order, imap_unordered balances
         results = list(pool.imap_unordered(common.run_shard, jobs, chunksize=1))
+
+        # ---- coverage-guided tier (thorough only, when atheris can be imported) -----------------------
+        fuzz_info = None
+        if args.tier == 'thorough' and os.environ.get('VERIF_FUZZ', '1') != '0' and not any(r['failure'] for r in results):
+            fuzz_info, fuzz_results = run_fuzz_stage(prop_id, [s for s in subs if s.cases is None], seed, args, pool)
+            results.extend(fuzz_results)
 
     results.sort(key=lambda r: (r['sub'], r['shard']))
     per_sub = collections.OrderedDict()
@@ -196,6 +300,7 @@ def main(argv=None):
                 'discarded_by_assume': discarded,
                 'budget_skipped': budget_skipped,
                 'case_timeouts': timeout_cases[:4],
+                'coverage_guided': fuzz_info,
                 'excluded_known': dict(excluded),
                 'replays_rerun': replayed,
                 'subchecks': {k: {'evaluations': v['evaluations'], 'distinct_nontrivial': len(v['distinct_nontrivial']),
@@ -220,6 +325,12 @@ def main(argv=None):
 
     print('%s tier=%s seed=%d: %d evaluations, %d distinct non-trivial, %d discarded, %d budget-skipped, %d replays, %.1fs'
           % (prop_id, args.tier, seed, evaluations, len(nt_all), discarded, budget_skipped, replayed, wall))
+    if fuzz_info and fuzz_info.get('available'):
+        print('  coverage-guided: %d campaigns, %d executions, %d evaluated cases, %d corpus units, %d inconclusive, %.1fs'
+              % (fuzz_info['campaigns'], fuzz_info['executions'], fuzz_info['evaluations'], fuzz_info['corpus_units'], fuzz_info['inconclusive'],
+                 fuzz_info.get('wall_s', 0.0)))
+    elif fuzz_info:
+        print('  coverage-guided: ' + fuzz_info.get('note', 'unavailable'))
     for k, v in per_sub.items():
         print('  %-22s evals=%-7d nt=%-7d skipped=%-5d wall=%.1fs' % (k, v['evaluations'], len(v['distinct_nontrivial']),
                                                                      v['budget_skipped'], v['wall_s']))
